@@ -161,6 +161,9 @@ def run_case(case, ctx):
             for a in (0.1, 1e3):
                 F4, G4 = aff(F, a, 0.0), aff(G, a, 0.0)
                 check_val(ctx, "value-scale", h(ctx, F4, G4, sigma * a * a), F4, G4, sigma * a * a, "scale %r" % a)
+        # extreme bandwidths on every pair
+        for sigma in (1e-4, 1e-2, 250.0, 1e6):
+            check_val(ctx, "value-sigma", h(ctx, F, G, sigma), F, G, sigma, "sigma=%g" % sigma)
         # nearly identical diagrams (cancellation regime): G = F with one coordinate nudged
         if F is not None and F == G and F:
             for dx in (1e-9, 1e-13):
